@@ -228,9 +228,14 @@ def _rat(x) -> Rat:
 
 def path_zero_set(out: Outcome):
     """Atoms forced to zero by the split decisions of a path.  Returns (zero_set, feasible)
-    where feasible is True / False (contradiction) / None (unmodelled decision)."""
+    where feasible is True / False (contradiction) / None (unmodelled decision).
+    Equalities between two counts (A == B) are kept and resolved once one side is known to be
+    zero; a remaining equality makes the path undecided unless it is trivially satisfiable
+    (it then only restricts the inputs and every obligation is checked under it by
+    substitution, see path_substitution)."""
     zero: set[str] = set()
     nonzero_forms: list[Poly] = []
+    equalities: list[Poly] = []
     for node, v, d in out.decisions:
         pv = getattr(v, "pv", None)
         if pv is None:
@@ -242,17 +247,22 @@ def path_zero_set(out: Outcome):
         if not p.nonneg_coeffs():
             p2 = -p
             if not p2.nonneg_coeffs():
+                # mixed signs: A op B between two counts
+                if opn in ("Eq", "NotEq"):
+                    is_eq = (opn == "Eq") == bool(d)
+                    if is_eq:
+                        equalities.append(p)
+                    continue
                 return zero, None
-            # -(nonneg form): flip the comparison
             opn = {"Lt": "Gt", "Gt": "Lt", "LtE": "GtE", "GtE": "LtE"}.get(opn, opn)
             p = p2
         is_zero = (opn == "Eq" and d) or (opn == "NotEq" and not d) or (opn == "Gt" and not d) or (opn == "LtE" and d)
         is_pos = (opn == "Eq" and not d) or (opn == "NotEq" and d) or (opn == "Gt" and d) or (opn == "LtE" and not d)
-        if opn in ("Lt",):  # form < 0 impossible for non-negative form
+        if opn in ("Lt",):
             if d:
                 return zero, False
             continue
-        if opn == "GtE":  # always true
+        if opn == "GtE":
             if not d:
                 return zero, False
             continue
@@ -262,10 +272,41 @@ def path_zero_set(out: Outcome):
             zero |= p.variables()
         elif is_pos:
             nonzero_forms.append(p)
+    # propagate equalities A == B once a side vanishes
+    changed = True
+    while changed:
+        changed = False
+        for e in list(equalities):
+            r = e.subst_zero(zero)
+            if r.is_zero():
+                equalities.remove(e)
+                changed = True
+            elif r.nonneg_coeffs() or (-r).nonneg_coeffs():
+                q = r if r.nonneg_coeffs() else -r
+                if q.const_value() > 0:
+                    return zero, False
+                zero |= q.variables()
+                equalities.remove(e)
+                changed = True
+    out.__dict__["equalities"] = [e.subst_zero(zero) for e in equalities]
     for p in nonzero_forms:
         if p.subst_zero(zero).is_zero():
             return zero, False
     return zero, True
+
+
+def path_substitution(out: Outcome) -> dict:
+    """For remaining equalities  sum(+vars) == sum(-vars)  solve for one variable with
+    coefficient +-1 so that values can be compared under the constraint."""
+    sub = {}
+    for e in out.__dict__.get("equalities", []):
+        for m, c in e.terms.items():
+            if len(m) == 1 and m[0][1] == 1 and abs(c) == 1 and m[0][0] not in sub:
+                v = m[0][0]
+                rest = e - Poly({m: c})
+                sub[v] = rest * Poly.const(-1 / c)
+                break
+    return sub
 
 
 def run_kernel(prog: Program, f: Func, args: dict, ndim=None):
